@@ -82,7 +82,8 @@ class SMarkup(SV):
     kind = "markup"
 
 
-ELEM_SORT = {"int": IntSort, "str": StrSort, "bool": BoolSort, "any": ObjSort, "real": RealSort}
+ELEM_SORT = {"int": IntSort, "str": StrSort, "bool": BoolSort, "any": ObjSort, "real": RealSort,
+             "seq_any": z3.SeqSort(ObjSort)}
 
 
 def wrap(t, kind, num="float"):
@@ -98,6 +99,8 @@ def wrap(t, kind, num="float"):
         return SAny(t)
     if kind == "markup":
         return SMarkup(t)
+    if kind == "seq_any":
+        return SSeq(t, "any")
     raise ValueError(kind)
 
 
@@ -149,6 +152,27 @@ class HJoin:
     def __init__(self, acc):
         self.acc = acc  # SStr | str
         self.count = 0
+
+
+class HListView:
+    """`d[k]` of a dict of lists: a live view (alias) of the list stored under key k."""
+
+    def __init__(self, d, kt):
+        self.d = d
+        self.kt = kt
+
+    @property
+    def seq(self):
+        return z3.Select(self.d.val, self.kt)
+
+
+class HSet:
+    """Heap set with symbolic members: `has` Array(K -> Bool), `count` Int (number of members)."""
+
+    def __init__(self, kind=None, has=None, count=None):
+        self.kind = kind
+        self.has = has
+        self.count = count if count is not None else z3.IntVal(0)
 
 
 class HSpecList:
